@@ -27,6 +27,13 @@ Extension (stability, time bins, cost):
    files in year 1, year 2 and ordinary years) for periods that start at datetime.min + 1 us / 1 s / 1 day / P - 1 us /
    P / P + 1 day (P = the look-back of the layout); they are inside the hypotheses, so the specification decides: an
    OverflowError (the code before bd49e45) or a lost file is a failing input.
+ * extension 3 (time coverage re-configured on ONE object; harness only): cases whose names carry no end fields may carry
+   case["recover"] = {"from": A}: the FileSet is constructed with the coverage A, asked (find() over everything, len, `in`,
+   two periods), told `fileset.time_coverage = B` (None / timedelta / "N seconds") and only then asked the queries, `in`
+   and len of the case; expected is the model / specification evaluated with B (the coverages of case["files"]), i.e. the
+   answer of a fresh object.  Directed stream `recover` (recover_cases: 4 layouts x 6 steps, seed-independent), half of
+   the random cases without end fields (add_recover_histories, own stream), and two thirds of the single-file cases
+   (constructed with the default or a far pair, re-assigned to the pair / None of the case; find, `in` and len).
 """
 import datetime as dt
 import os
@@ -506,6 +513,79 @@ def near_min_stats(cases):
     return n, clamp
 
 
+# ----------------------------------------------------------------------------- directed: re-configured time coverage
+
+def coverage_value(us, n=0):
+    """a relative time coverage as the user writes it: None, a timedelta or (every other time, whole seconds) a string"""
+    if us is None:
+        return None
+    if n % 2 and us % 10**6 == 0:
+        return f"{us // 10**6} seconds"
+    return dt.timedelta(microseconds=us)
+
+
+RECOVER_LAYOUTS = [
+    ("flat", []),
+    ("year-month-day", [[["t", "year"]], [["t", "month"]], [["t", "day"]]]),
+    ("year-month", [[["t", "year"]], [["t", "month"]]]),
+    ("sat-year-doy", [[["u", "sat"]], [["t", "year"]], [["t", "doy"]]]),
+]
+RECOVER_STEPS = [(6, None), (None, 6), (6, 2), (2, 8), (24, None), (None, 2)]       # hours; None = discrete files
+
+
+def recover_cases(first_id):
+    """Seed-independent (seeded change C01-l).  One file every six hours over a month end, names without end fields; ONE
+    FileSet object is constructed with the coverage A, asked (find() over everything, len, `in`, two periods), told
+    `fileset.time_coverage = B` and asked the queries proper: periods inside a file of the longer coverage where no
+    file starts, the last hour of the month, open ends; `in` at instants covered under one configuration only.  The
+    expected answers are those of the model evaluated with B (the coverages of case["files"])."""
+    H = 3600 * 10**6
+    cases = []
+    for name, chunks in RECOVER_LAYOUTS:
+        users = ["sat"] if name.startswith("sat") else []
+        fp = [["lit", "f_"], ["t", "year"], ["t", "month"], ["t", "day"], ["lit", "T"], ["t", "hour"], ["t", "minute"],
+              ["lit", ".dat"]]
+        for a, b in RECOVER_STEPS:
+            tc = None if b is None else b * H
+            case = {"id": first_id + len(cases), "stream": "recover", "chunks": chunks, "filepart": fp, "file_res": "minute",
+                    "end_style": "none" if b is None else "tc", "time_coverage": tc, "zip": False,
+                    "recover": {"from": None if a is None else a * H}, "recover_layout": name}
+            t, files = _us(2018, 1, 30), []
+            while t < _us(2018, 2, 3):
+                files.append({"t0": t, "t1": t + (tc or 0), "attrs": {u: USER_VALUES[u][len(files) % 3] for u in users},
+                              "wild": ""})
+                t += 6 * H
+            case["files"] = files
+            case["noise"] = False
+            case["exclude_names"], case["exclude_periods"] = [], []
+            periods = [(None, None), (_us(2018, 1, 30, 3), _us(2018, 1, 30, 5)), (_us(2018, 1, 31, 1), _us(2018, 1, 31, 2)),
+                       (_us(2018, 1, 31, 23), _us(2018, 2, 1)), (_us(2018, 2, 1), _us(2018, 2, 1, 6)),
+                       (_us(2018, 1, 30, 12), _us(2018, 2, 2, 12)), (_us(2018, 2, 2, 19), _us(2018, 2, 2, 23)),
+                       (_us(2018, 1, 30, 7), None), (None, _us(2018, 1, 30, 0) + 1)]
+            case["queries"] = [{"start": s, "end": e, "filters": None, "sort": True, "bundle": None, "only_path": False,
+                                "nfe": i % 3 == 2} for i, (s, e) in enumerate(periods)]
+            case["contains"] = [_us(2018, 1, 30, 4), _us(2018, 1, 31, 6), _us(2018, 1, 31, 7, 30), _us(2018, 2, 1, 17),
+                                _us(2018, 2, 5)]
+            cases.append(case)
+    return cases
+
+
+def add_recover_histories(rng, cases):
+    """a share of the random cases whose names carry no end fields gets a re-configuration history (a stream of random
+    numbers of its own: the cases are exactly what they were)"""
+    n = 0
+    for c in cases:
+        if c.get("end_style") not in ("none", "tc") or c.get("recover") or not c["files"]:
+            continue
+        if rng.random() < 0.5:
+            unit = UNIT_US[c["file_res"]]
+            pool = [a for a in (None, None, unit, 7 * unit, 3600 * 10**6, 6 * 3600 * 10**6, DAY_US)
+                    if a != c["time_coverage"]]
+            c["recover"] = {"from": rng.choice(pool)}
+            n += 1
+    return n
+
+
 # ----------------------------------------------------------------------------- running the real code
 
 def classify_exc(e):
@@ -551,8 +631,12 @@ def run_impl(case):
         paths = build_tree(case, data)
         template = template_of(case)
         kw = {}
-        if case["time_coverage"] is not None:
-            kw["time_coverage"] = dt.timedelta(microseconds=case["time_coverage"])
+        # re-configuration history (case["recover"] = {"from": A}): the object is constructed with the time coverage A,
+        # looks at its files and is then told the coverage of the case by `fileset.time_coverage = B` (below)
+        hist = case.get("recover") if case.get("end_style") in ("none", "tc") else None
+        first = hist["from"] if hist else case["time_coverage"]
+        if first is not None:
+            kw["time_coverage"] = dt.timedelta(microseconds=first)
         exclude = [paths[i] for i in case["exclude_names"]] + \
                   [(to_dt(a), to_dt(b)) for a, b in case["exclude_periods"]]
         if exclude:
@@ -575,6 +659,19 @@ def run_impl(case):
         else:
             index = {p: i for i, p in enumerate(paths)}
             fs = FileSet(str(data / template).replace(os.sep, "/") if template else str(data), **kw)
+
+        if hist:
+            warm = [lambda: list(fs.find(no_files_error=False)), lambda: len(fs)]
+            warm += [(lambda t=t: to_dt(t) in fs) for t in case["contains"][:3]]
+            warm += [(lambda q=q: list(fs.find(None if q["start"] is None else to_dt(q["start"]),
+                                               None if q["end"] is None else to_dt(q["end"]), no_files_error=False)))
+                     for q in case["queries"][:2]]
+            for call in warm:
+                try:
+                    call()
+                except Exception:  # noqa
+                    pass
+            fs.time_coverage = coverage_value(case["time_coverage"], case["id"])
 
         def ident(x):
             p = getattr(x, "path", x)
@@ -1000,7 +1097,7 @@ def check_cases(ctx, cases, name="find", stats=None, full=None):
 
 # ----------------------------------------------------------------------------- single-file filesets
 
-def check_single(ctx, n):
+def check_single(ctx, n, stats=None):
     from typhon.files import FileSet
     root = Path(tempfile.mkdtemp(prefix="verif_c01s_"))
     try:
@@ -1018,22 +1115,49 @@ def check_single(ctx, n):
                 # directed, whatever the seed: the semi-open end exactly on the start of the coverage (the file is NOT in
                 # [s, t0)), one microsecond later (it is), the closed start exactly on the end of the coverage (it is)
                 s, e = [(a - 86400 * 10**6, a), (a - 1, a), (a - 86400 * 10**6, a + 1), (b, b + 1), (b + 1, b + 2), (a - 5, a)][k]
-            fs = FileSet(str(p)) if default else FileSet(str(p), time_coverage=(to_dt(a), to_dt(b)))
-            try:
-                got = [x.path for x in fs.find(to_dt(s), to_dt(e), no_files_error=False)]
-                o = ("Some", bool(got))
-            except ValueError:
-                o = None
-            except Exception as ex:  # noqa
-                o = classify_exc(ex)
-            rows.append((cov, s, e, o))
+            hist = None
+            if k % 3 != 1:
+                # history on ONE object: constructed with ANOTHER coverage (the whole time axis, or a period days away),
+                # asked, then told the coverage of the case by `fileset.time_coverage = ...` (None = the whole time axis)
+                far = (to_dt(a + 10 * DAY_US), to_dt(a + 11 * DAY_US))
+                hist = far if (default or k % 2) else None
+                fs = FileSet(str(p), time_coverage=hist)
+                for call in (lambda: list(fs.find(no_files_error=False)), lambda: to_dt(s) in fs, lambda: len(fs),
+                             lambda: list(fs.find(to_dt(s), to_dt(e), no_files_error=False))):
+                    try:
+                        call()
+                    except Exception:  # noqa
+                        pass
+                fs.time_coverage = None if default else (to_dt(a), to_dt(b))
+                if stats is not None:
+                    stats["single_histories"] = stats.get("single_histories", 0) + 1
+            else:
+                fs = FileSet(str(p)) if default else FileSet(str(p), time_coverage=(to_dt(a), to_dt(b)))
+
+            def canon(call):
+                try:
+                    return ("Some", bool(call()))
+                except ValueError:
+                    return None
+                except Exception as ex:  # noqa
+                    return classify_exc(ex)
+            how = "" if k % 3 == 1 else f" after time_coverage was {'the default' if hist is None else hist} and was re-assigned"
+            o = canon(lambda: [x.path for x in fs.find(to_dt(s), to_dt(e), no_files_error=False)])
+            rows.append((cov, f"find({to_dt(s)}, {to_dt(e)})" + how, [cov, s, e], o))
             exprs.append(f"single_find ({zlit(cov[0])}, {zlit(cov[1])}) {zlit(s)} {zlit(e)}")
+            # `t in fileset` is find(t, t + 1 us) non-empty; len(fileset) counts find() over the whole time axis
+            o = canon(lambda: to_dt(s) in fs)
+            rows.append((cov, f"`{to_dt(s)} in fileset`" + how, [cov, s, s + 1], o))
+            exprs.append(f"single_find ({zlit(cov[0])}, {zlit(cov[1])}) {zlit(s)} {zlit(s + 1)}")
+            o = canon(lambda: len(fs))
+            rows.append((cov, "len(fileset) > 0" + how, [cov, 0, DT_MAX - 1], o))
+            exprs.append(f"single_find ({zlit(cov[0])}, {zlit(cov[1])}) 0 {zlit(DT_MAX - 1)}")
         vals, log = core.coq_eval(ctx.work / "cases", "single", PREAMBLE, exprs)
-        for (cov, s, e, o), v in zip(rows, vals):
+        for (cov, what, key, o), v in zip(rows, vals):
             ctx.cov["evaluations"] += 1
             if v != o:
-                ctx.fail("failing-input", f"single-file fileset with coverage {cov}: find({to_dt(s)}, {to_dt(e)}) gives {o}, "
-                         f"expected {v}", case={"single": [cov, s, e]}, impl=repr(o), model=repr(v), signature="single-file")
+                ctx.fail("failing-input", f"single-file fileset with coverage {cov}: {what} gives {o}, "
+                         f"expected {v}", case={"single": key}, impl=repr(o), model=repr(v), signature="single-file")
     finally:
         shutil.rmtree(root, ignore_errors=True)
 
@@ -1128,13 +1252,18 @@ def run(ctx):
     stats = new_stats()
     # directed, seed-independent: periods that start within one look-back of datetime.min (zip variants in thorough)
     near = nearmin_cases(len(cases) + len(zips), zip_too=ctx.thorough and bool(zips))
+    # directed, seed-independent: the time coverage re-configured on ONE object between the queries; and the same kind of
+    # history for a share of the random cases without end fields (its own stream of random numbers)
+    import random as _random
+    recov = recover_cases(len(cases) + len(zips) + len(near))
+    n_recover = add_recover_histories(_random.Random(f"C01-recover:{ctx.seed}"), cases + zips)
     # local and zip trees in one pass: one pool of workers for the real code, one set of Coq shards beside it
-    nontrivial, n_hyp = check_cases(ctx, cases + zips + near, stats=stats)
+    nontrivial, n_hyp = check_cases(ctx, cases + zips + near + recov, stats=stats)
     zips = zips + [c for c in near if c["zip"]]
-    cases = cases + [c for c in near if not c["zip"]]
+    cases = cases + [c for c in near if not c["zip"]] + recov
     ctx.log(f"compared: {ctx.cov['evaluations']} evaluations, {stats['tie_groups']} groups of equal coverage, "
             f"{stats['bins_compared']} time bins")
-    check_single(ctx, ctx.n(20, 200))
+    check_single(ctx, ctx.n(20, 200), stats)
     coqchk_own_collect(ctx, chk)
     ctx.cov["distinct_nontrivial"] = len(nontrivial)
     ctx.cov["rule"] = ("one evaluation = one find() / `in` / len() call on a harness-built tree compared with the Coq "
@@ -1144,7 +1273,14 @@ def run(ctx):
     allc = cases + zips
     ctx.cov["input_distribution"] = {
         "cases": len(allc), "zip_cases": len(zips), "cases_inside_hypotheses": n_hyp,
-        "streams": {s: sum(1 for c in allc if c["stream"] == s) for s in ("main", "long", "gap", "bins", "nearmin")},
+        "streams": {s: sum(1 for c in allc if c["stream"] == s) for s in ("main", "long", "gap", "bins", "nearmin", "recover")},
+        "time_coverage_reassigned_on_one_object": {
+            "directed_cases": len(recov), "random_cases_with_a_history": n_recover,
+            "steps": {k: sum(1 for c in allc if c.get("recover") and c.get("end_style") in ("none", "tc")
+                             and ("None" if c["recover"]["from"] is None else "timedelta") + "->"
+                             + ("None" if c["time_coverage"] is None else "timedelta") == k)
+                      for k in ("None->timedelta", "timedelta->None", "timedelta->timedelta")},
+            "single_file_cases_with_a_history": stats.get("single_histories", 0)},
         "near_datetime_min": dict(zip(("find_calls_starting_within_two_lookbacks_of_datetime_min",
                                        "of_which_within_one_lookback_(clamped)"), near_min_stats(allc)),
                                   layouts=[n for n, _ in NEARMIN_LAYOUTS]),
